@@ -84,9 +84,13 @@ class World(object):
                 start_response("%d %s" % (ent["status"], REASON[ent["status"]]),
                                [("Location", ent["location"]), ("Content-Type", "text/plain"),
                                 ("Content-Length", str(len(body))), ("X-Hop", str(ent["hop"]))])
+                if environ.get("REQUEST_METHOD") == "HEAD":
+                    return []
                 return [body]
             body = ent["body"]
             start_response("200 OK", [("Content-Type", "text/plain"), ("Content-Length", str(len(body)))])
+            if environ.get("REQUEST_METHOD") == "HEAD":
+                return []           # the length of the entity is declared, no body is sent
             return [body]
         return app
 
@@ -217,6 +221,17 @@ def gen_chain(rng, world, tls, other="B"):
                      "path": npath, "query": nquery,
                      "transition": "same" if nxt == cur else "%s->%s" % (src["scheme"], dst["scheme"])})
         cur, path, query = nxt, npath, nquery
+    # an absolute Location that names no path at all (`http://host:port`, `http://host:port?q=1`): the resolved location is
+    # the root `/` of that server.  Only the last hop is rewritten (no later Location is resolved against its path).
+    import random as _random
+    last = hops[-1]
+    if last["form"] == "abs" and _random.Random(repr(("nopath", last["location"]))).random() < 0.3 and \
+            (last["to"], "/", tuple(last["query"])) not in used:
+        dst = world.server(last["to"])
+        last["location"] = "%s://%s:%d" % (dst["scheme"], dst["host"], dst["port"]) + \
+                           ("?" + enc_query(last["query"]) if last["query"] else "")
+        last["path"] = "/"
+        last["form"] = "abs-nopath"
     return start, hops
 
 
@@ -251,6 +266,11 @@ def one_case(ctx, world, rng, idx, deadline):
     last = hops[-1]
     world.table[(last["to"], last["path"], tuple(last["query"]))] = {"kind": "final", "body": final_body}
     method = rng.choice(["GET", "GET", "GET", "OPTIONS", "DELETE"])
+    import random as _random
+    if _random.Random(repr((tag, "head"))).random() < 0.12 and not tls:
+        # a HEAD request: every response on the way declares the length of its entity and carries no body
+        method = "HEAD"
+        ctx.hit("head_requests")
     s0 = world.server(start["server"])
     if any(h["transition"] == "http->https" for h in hops):
         world.trust_test_ca()
@@ -302,9 +322,33 @@ def one_case(ctx, world, rng, idx, deadline):
                 time.sleep(0.0005)
             if time.time() - t0 > 3.0 or time.time() > deadline:
                 break
+            if method == "HEAD" and rounds >= 400:
+                break
         ctx.event(rounds)
         seen = list(world.seen)
         resp = patron.responses[0] if patron.responses else None
+        if method == "HEAD" and resp is None and not escaped:
+            # no wall-clock verdict: the servers have nothing left to send and the client has read all there is -- the last
+            # response is complete on the wire (a head that declares a length, no body) and was neither followed nor delivered
+            for _ in range(5):
+                for sv in world.servers.values():
+                    sv["valet"].serviceAll()
+                time.sleep(0.002)
+                try:
+                    patron.serviceAll()
+                except Exception:     # noqa
+                    pass
+            pending = any(ix.txes for sv in world.servers.values() for ix in sv["valet"].servant.ixes.values())
+            if not pending and not patron.connector.rxbs and not patron.responses and patron.respondent.status is not None:
+                ctx.fail("redirect/head-request/response-complete-on-the-wire-never-%s" % (
+                             "followed" if 300 <= patron.respondent.status < 400 else "delivered"),
+                         "HEAD %s: after %d service rounds the client has read the complete response %s (declared length %s, no "
+                         "body) and neither follows nor delivers it; it parses it as the response to a %s request" % (
+                             start["path"], rounds, patron.respondent.status, patron.respondent.length, patron.respondent.method),
+                         lambda: wit({"rounds": rounds, "respondent_method": patron.respondent.method,
+                                      "requester_method": patron.requester.method}))
+                ctx.case((start, hops, method), nontrivial=True)
+                return
         w2 = lambda extra=None: wit(dict({"escaped": escaped, "rounds": rounds,
                                           "final": None if resp is None else {"status": resp["status"], "body": bytes(resp["body"]),
                                                                              "redirects": [{"status": r["status"], "location": r["headers"].get("location")}
@@ -363,7 +407,8 @@ def one_case(ctx, world, rng, idx, deadline):
         else:
             ctx.check(True, "redirect/requests-seen", "")
         if div is None and not escaped and downgrade_at is None:
-            ok = resp is not None and resp["status"] == 200 and bytes(resp["body"]) == final_body and not resp["errored"]
+            ok = resp is not None and resp["status"] == 200 and bytes(resp["body"]) == (final_body if method != "HEAD" else b"") \
+                and not resp["errored"]
             ctx.check(ok, "redirect/final-response", "final response is not the chain's 200 with its body", w2)
             ctx.check(len(patron.responses) == 1, "redirect/one-final-response", "more than one response delivered", w2)
             reds = resp.get("redirects", []) if resp else []
@@ -372,7 +417,8 @@ def one_case(ctx, world, rng, idx, deadline):
             ctx.check(got == exp, "redirect/chain-carried-in-order", "final response does not carry the redirect responses in order",
                       lambda: w2({"carried": got, "expected": exp}))
             gotb = [bytes(r["body"]) for r in reds]
-            ctx.check(got != exp or gotb == [b"moved: hop %d" % k for k in range(len(hops))], "redirect/chain-response-bodies",
+            ctx.check(got != exp or gotb == [(b"moved: hop %d" % k) if method != "HEAD" else b"" for k in range(len(hops))],
+                      "redirect/chain-response-bodies",
                       "the redirect responses carried by the final response do not have the bodies the servers sent",
                       lambda: w2({"carried_bodies": [b.decode("latin-1") for b in gotb]}))
             ctx.hit("completed_chains")
@@ -421,7 +467,7 @@ def one_case(ctx, world, rng, idx, deadline):
                     if len(patron.responses) == 2:
                         rs = patron.responses[1]
                         got = [(r["status"], r["headers"].get("location")) for r in rs.get("redirects", [])]
-                        ctx.check(rs["status"] == 200 and bytes(rs["body"]) == final_body and got == exp,
+                        ctx.check(rs["status"] == 200 and bytes(rs["body"]) == (final_body if method != "HEAD" else b"") and got == exp,
                                   "redirect/second-request/final-response-or-chain",
                                   "the second final response is not the chain's 200 carrying exactly its own redirects",
                                   lambda: w3({"carried": got, "expected": exp}))
@@ -553,6 +599,8 @@ def run(ctx):
     ctx.floor("downgrade_cases_on_a_supplied_connector", total // 400)
     ctx.floor("redirects_between_hosts_on_the_same_port", total // 30)
     ctx.floor("portless_redirects_judged", total // 12)
+    ctx.floor("head_requests", total // 20)
+    ctx.floor("form:abs-nopath", total // 60)
     ctx.floor("portless_redirects_to_https", total // 40)
     for f, d in (("abs", 4), ("abspath", 10), ("relpath", 10), ("queryonly", 20), ("netpath", 8)):
         ctx.floor("form:" + f, total // d)
